@@ -38,7 +38,7 @@ FLOOR = {
 
 
 def plan(tier, seed):
-    n = 14 if tier == "quick" else 450
+    n = 28 if tier == "quick" else 450
     cases = []
     for k in range(n):
         for kind in ("base", "base-mono", "product", "cont"):
